@@ -179,11 +179,21 @@ PickBudget ==
     /\ \E o \in {"none", "loop", "repeat2"}, c \in Ctl1, b \in 1..MaxBudget :
           stim' = [stim EXCEPT !.outer = o, !.mid = c, !.n = b]
     /\ phase' = "start" /\ UNCHANGED <<s, u>>
-Feed0(st) == IF Family = "calls" THEN InsertEoc(Toks(Program(st)), st.cuts, 1) ELSE Toks(Program(st))
+\* ---- the budget spans the calls (C11 + C12): a budgeted program delivered in two Execute
+\* calls; u runs the unsplit program under the same budget
+PickBudgetCalls ==
+    /\ Family = "budgetcalls" /\ phase = "pick1"
+    /\ \E o \in {"none", "repeat2"}, c \in {x \in Ctl1 : ~HasStop(x)}, b \in 1..MaxBudget :
+          \E a \in {1, Len(Wrap(o, c)) \div 2, Len(Wrap(o, c)) - 1} :
+             /\ a >= 1
+             /\ stim' = [stim EXCEPT !.outer = o, !.mid = c, !.pre = <<>>, !.post = <<>>, !.cuts = {a}, !.n = b]
+    /\ phase' = "start" /\ UNCHANGED <<s, u>>
+Feed0(st) == IF Family \in {"calls", "budgetcalls"} THEN InsertEoc(Toks(Program(st)), st.cuts, 1) ELSE Toks(Program(st))
 Start == /\ phase = "start"
          /\ phase' = "run"
-         /\ s' = FreshState(Feed0(stim), IF Family = "budget" THEN stim.n ELSE 0)
-         /\ u' = IF Family \in {"budget", "calls"} THEN FreshState(Toks(Program(stim)), 0) ELSE u
+         /\ s' = FreshState(Feed0(stim), IF Family \in {"budget", "budgetcalls"} THEN stim.n ELSE 0)
+         /\ u' = IF Family \in {"budget", "calls"} THEN FreshState(Toks(Program(stim)), 0)
+                 ELSE IF Family = "budgetcalls" THEN FreshState(Toks(Program(stim)), stim.n) ELSE u
          /\ UNCHANGED stim
 Run == /\ phase = "run" /\ s.status = "running"
        /\ s' = IF s.nops > StepBound THEN Skip(s) ELSE Step(s)
@@ -191,7 +201,7 @@ Run == /\ phase = "run" /\ s.status = "running"
                ELSE IF Family = "calls" THEN u     \* the unsplit twin is run to its end when needed (RunToEnd)
                ELSE u
        /\ UNCHANGED <<stim, phase>>
-Next == PickCtl \/ PickLook \/ PickBudget \/ PickLimit \/ PickCalls \/ Start \/ Run \/ FeedStep \/ FeedRun
+Next == PickCtl \/ PickLook \/ PickBudget \/ PickLimit \/ PickCalls \/ PickBudgetCalls \/ Start \/ Run \/ FeedStep \/ FeedRun
 
 Vector == [prog |-> IF Family = "feed" THEN stim.prog ELSE Feed0(stim), init |-> <<>>, maxops |-> s.maxops,
            status |-> s.status, errs |-> s.errs, ost |-> s.ost, dst |-> s.dst,
@@ -216,6 +226,15 @@ SplitTransparent ==
         LET e == RunToEnd(u, 400)
         IN /\ e.status = s.status
            /\ (s.status = "done" => (e.ost = s.ost /\ e.dst = s.dst /\ e.heap = s.heap /\ e.nops = s.nops))
+           /\ (s.status = "error" => e.errs = s.errs)
+
+\* The budget spans the calls: splitting a budgeted program into two calls changes nothing,
+\* in particular not the operation at which the budget strikes nor the final count.
+BudgetSpansCalls ==
+    (Family = "budgetcalls" /\ phase = "run" /\ s.status \in {"done", "error"}) =>
+        LET e == RunToEnd(u, 400)
+        IN /\ e.status = s.status /\ e.nops = s.nops /\ s.nops <= s.maxops + 1
+           /\ (s.status = "done" => (e.ost = s.ost /\ e.dst = s.dst /\ e.heap = s.heap))
            /\ (s.status = "error" => e.errs = s.errs)
 
 \* The budget is transparent: until it strikes, the budgeted run is in the very state of
